@@ -1,10 +1,10 @@
 #!/bin/bash
 # usage: tools/try_patch.sh <patch.diff> [Cxx ...]   - run checks against a scratch copy of /repo with the patch applied
 set -u
-patch=$1; shift
+patch=$(realpath "$1"); shift
 tmp=$(mktemp -d /tmp/vrepo.XXXXXX)
 mkdir -p $tmp/src && cp -r /repo/src/genjax $tmp/src/
-( cd $tmp && git init -q . >/dev/null 2>&1; git apply --whitespace=nowarn "$patch" ) || { echo "PATCH-FAILED $patch"; rm -rf $tmp; exit 3; }
+( cd $tmp && git init -q . >/dev/null 2>&1; git apply --whitespace=nowarn "$(realpath "$patch")" ) || { echo "PATCH-FAILED $patch"; rm -rf $tmp; exit 3; }
 rc_all=0
 for id in "$@"; do
   VERIF_REPO=$tmp /verif/check $id --no-evidence | grep -E "^(C[0-9]+ \[|VIOLATION|ANALYSIS-ERROR|  rule=)" 
